@@ -42,7 +42,8 @@ Inductive sub : Type :=
 | Sl3 (a b c : Z)             (* x[a:b:c], source order *)
 | LoopV (a b off : Z)         (* for i in a:b loop ... x[i+off] *)
 | LoopV3 (a b c off : Z)      (* for i in a:b:c loop ... x[i+off] *)
-| LoopX (a b : Z) (e : lexp). (* for i in a:b loop ... x[e(i)], e any integer expression of i *)
+| LoopX (a b : Z) (e : lexp)  (* for i in a:b loop ... x[e(i)], e any integer expression of i *)
+| LoopX3 (a b c : Z) (e : lexp). (* for i in a:b:c loop ... x[e(i)] *)
 
 (* which of the repairs the tree under test contains (derived from its behaviour by the
    check; all false = /repo as of round 1; /repo after 05b675f, f098077, f8eb4b4 = true true false true) *)
@@ -138,6 +139,8 @@ Definition index (c : cfg) (n : Z) (u : sub) : res (list Z) :=
   | LoopV a b off => loop_path c n a b 1 off
   | LoopV3 a b c3 off => if mod3 c then loop_path c n a c3 b off else loop_path c n a b c3 off
   | LoopX a b e => loop_pathF c n a b 1 (leval e) (is_var e)
+  | LoopX3 a b c3 e => if mod3 c then loop_pathF c n a c3 b (leval e) (is_var e)
+                       else loop_pathF c n a b c3 (leval e) (is_var e)
   end.
 
 (* ---- the specification: Modelica subscripts (1-based, inclusive, start:step:stop) ---------- *)
@@ -154,25 +157,26 @@ Definition modelica (n : Z) (u : sub) : res (list Z) :=
   | LoopV a b off => guard n (map (fun v => v + off) (mrange a 1 b))
   | LoopV3 a s b off => guard n (map (fun v => v + off) (mrange a s b))
   | LoopX a b e => guard n (map (leval e) (mrange a 1 b))
+  | LoopX3 a s b e => guard n (map (leval e) (mrange a s b))
   end.
 
 (* the step of a subscript, for the side condition "step <> 0" *)
 Definition step_of (u : sub) : Z :=
-  match u with Sl3 _ s _ => s | LoopV3 _ s _ _ => s | _ => 1 end.
+  match u with Sl3 _ s _ => s | LoopV3 _ s _ _ => s | LoopX3 _ s _ _ => s | _ => 1 end.
 Definition three_part (u : sub) : bool :=
-  match u with Sl3 _ _ _ => true | LoopV3 _ _ _ _ => true | _ => false end.
+  match u with Sl3 _ _ _ => true | LoopV3 _ _ _ _ => true | LoopX3 _ _ _ _ => true | _ => false end.
 
 (* ---- two dimensions: the selection is the product of the per-dimension selections ---------- *)
 Definition prod2 (l1 l2 : list Z) : list (Z * Z) :=
   flat_map (fun c => map (fun r => (r, c)) l1) l2.
 Definition is_loop (u : sub) : bool :=
-  match u with LoopV _ _ _ => true | LoopV3 _ _ _ _ => true | LoopX _ _ _ => true | _ => false end.
+  match u with LoopV _ _ _ => true | LoopV3 _ _ _ _ => true | LoopX _ _ _ => true | LoopX3 _ _ _ _ => true | _ => false end.
 (* when the error of a dimension surfaces: the ValueErrors of scalar and slice subscripts are raised
    inside the loop over the dimensions (:858-906); then the non-loop dimension is handed to CasADi
    (:911/:932 or :944-946); then register_indexed_symbol checks the loop indices (repaired code);
    the loop indices reach CasADi last (exitForEquation :512) *)
 Definition loop_step (c : cfg) (u : sub) : Z :=
-  match u with LoopV3 _ b c3 _ => if mod3 c then b else c3 | _ => 1 end.
+  match u with LoopV3 _ b c3 _ => if mod3 c then b else c3 | LoopX3 _ b c3 _ => if mod3 c then b else c3 | _ => 1 end.
 Definition stage {A} (lp : bool) (r : res A) : Z :=
   match r with Ok _ => 9 | ErrV => if lp then 3 else 1 | ErrB => if lp then 4 else 2 end.
 Definition index2 (c : cfg) (n m : Z) (u v : sub) : res (list (Z * Z)) :=
@@ -193,7 +197,8 @@ Definition modelica2 (n m : Z) (u v : sub) : res (list (Z * Z)) :=
    array (a[1].x[..]) and a scalar component (a[..].v[1]) ------------------------------------------- *)
 Definition bare_loop (u : sub) : bool :=
   match u with
-  | LoopV _ _ off => off =? 0 | LoopV3 _ _ _ off => off =? 0 | LoopX _ _ e => is_var e | _ => false end.
+  | LoopV _ _ off => off =? 0 | LoopV3 _ _ _ off => off =? 0 | LoopX _ _ e => is_var e | LoopX3 _ _ _ e => is_var e
+  | _ => false end.
 (* k = size1() of what the loop ends up indexing: 1 for a scalar / scalar member, the length of v for
    a[i].v[1] with a scalar component a (the loop variable then runs over v's dimension) *)
 Definition index_scalar (c : cfg) (k : Z) (u : sub) : res (list Z) :=
@@ -237,3 +242,18 @@ Definition check_case (c : cfg) (x : Z * sub * option (Z * sub) * Z * list Z) : 
 (* scalar symbols: case = (k, u, observed kind, observed selection (rows r, in residual order)) *)
 Definition check_scalar (c : cfg) (x : Z * sub * Z * list Z) : bool :=
   let '(k, u, kind, sel) := x in obs_eq (index_scalar c k u) kind sel.
+
+(* ---- several consecutive for-equations on the same array: the walker handles them one after the
+   other (enter, body, exit), each with a fresh ForLoop, so the outcome is the first error in order,
+   else the concatenation of the selections -------------------------------------------------------- *)
+Fixpoint seqM (rs : list (res (list Z))) : res (list Z) :=
+  match rs with
+  | [] => Ok []
+  | r :: rs' => match r with
+                | Ok l => match seqM rs' with Ok l' => Ok (l ++ l') | ErrV => ErrV | ErrB => ErrB end
+                | ErrV => ErrV | ErrB => ErrB end
+  end.
+Definition index_multi (c : cfg) (n : Z) (us : list sub) : res (list Z) := seqM (map (index c n) us).
+Definition modelica_multi (n : Z) (us : list sub) : res (list Z) := seqM (map (modelica n) us).
+Definition check_multi (c : cfg) (x : Z * list sub * Z * list Z) : bool :=
+  let '(n, us, kind, sel) := x in obs_eq (index_multi c n us) kind sel.
